@@ -60,8 +60,21 @@ CLAIMS = {
         note="smtpcode() is an arbitrary-code stub in the smtp() proof; connect/DNS phase of main and timeouts (dropped) "
              "are not covered beyond the flag.",
         design_ref="DESIGN.md section 5 C09"),
+    "C08": dict(
+        text="Proof (CBMC): each SMTP verb of the unmodified qmail-smtpd.c (HELO/EHLO/RSET, MAIL, RCPT, DATA) is verified as an "
+             "operation on an abstract transaction view from an arbitrary state, so every command sequence is covered by "
+             "induction: MAIL discards earlier recipients and sets sender and bad-sender verdict from its own argument; a "
+             "recipient record (T addr NUL) is added iff answered 250, only after MAIL, never for a bad sender, with the "
+             "RELAYCLIENT suffix or an rcpthosts yes; DATA submits only with MAIL and >= 1 recipient, with exactly that sender "
+             "and those records, and discards the transaction. rcpthosts() (loop contracts, unbounded): candidates are the "
+             "whole domain and its dot-suffixes in order, none skipped, lower-cased first, first hit decides, errors defer. "
+             "Bounded stand-in: addrparse() localiphost substitution and length limit for arguments <= 14 bytes.",
+        note="stralloc operations are recording stubs (their contracts are proved separately); constmap/cdb lookups are oracles "
+             "(list contents are configuration); commands() dispatch and bmfcheck are covered by their own proofs when listed "
+             "in evidence.",
+        design_ref="DESIGN.md section 5 C08"),
 }
 
 NOT_APPLICABLE = {p: PENDING for p in
-                  ["C01", "C02", "C03", "C04", "C08", "C10", "C11", "C12", "C13", "C14",
+                  ["C01", "C02", "C03", "C04", "C10", "C11", "C12", "C13", "C14",
                    "C16", "C17", "C19", "C20"]}
